@@ -270,7 +270,7 @@ def oracle_kev(c, ans):
 
 
 def line_enc(f):
-    th = ','.join('%d:%d:%s' % (t[0], t[1], t[2]) for t in f['threads']) or '-'
+    th = ','.join('%d:%d:%s' % (t[0], t[1], t[2]) + (':' + t[3] if len(t) > 3 else '') for t in f['threads']) or '-'
     return 'encv2 %d %d %d %s %s' % (f['is64'], f['tick'], f['pad'], th, ''.join(f['recs']) or '-')
 
 
@@ -360,8 +360,10 @@ def correspondence(rep, rng, tier):
     run_section(rep, 'v2-kevents', kev, line_kev, impl_kev, oracle_fn=oracle_kev,
                 rule='the same through PyKdebugParser().kevents(BytesIO) with pre-polluted parser tables')
     encs = [gen_file(rng, small=rng.random() < 0.5) for _ in range(200 if quick else 3000)]
+    for f in encs[::2]:
+        f['threads'] = ct.add_junk(rng, f['threads'])
     run_section(rep, 'encv2', encs, line_enc, lambda f: file_bytes(f).hex(),
-                rule='Lean Spec.encodeV2 output == the harness\'s own Python encoder, byte for byte')
+                rule='Lean Spec.encodeV2 output == the harness\'s own Python encoder, byte for byte (every second file with bytes behind the names\' terminators)')
     u8 = utf8_cases(rng, 500 if quick else 20000)
     run_section(rep, 'utf8', u8, lambda h: 'utf8 ' + (h or '-'), impl_utf8,
                 rule='Model/Construct.validUtf8 == CPython bytes.decode("utf8") succeeds (every lead byte x boundary '
